@@ -176,6 +176,48 @@ def wsdl11(repo):
     }
 
 
+NODE_TABLES = ('port_type_dict', 'binding_dict', 'service_elt_dict')
+
+def _table_reset(st):
+    """name of the table for a statement `self.<table> = {}`, else None"""
+    if isinstance(st, ast.Assign) and len(st.targets) == 1 and isinstance(st.value, ast.Dict) and not st.value.keys:
+        ch = _attr_chain(st.targets[0])
+        if ch is not None and len(ch) == 2 and ch[0] == 'self' and ch[1] in NODE_TABLES:
+            return ch[1]
+    return None
+
+
+def resets_tables(repo):
+    """True iff Wsdl11.build_interface_document empties, unconditionally and before anything else, the three
+    tables in which it keeps the portType / binding / service nodes of the document being built
+    (port_type_dict, binding_dict, service_elt_dict), and nothing else in the class but __init__ assigns them:
+    a second build on the same instance - the next ?wsdl request after a build that failed half way - then
+    starts from the state the model starts from"""
+    tree = _parse(repo, 'spyne/interface/wsdl/wsdl11.py')
+    fn = _func(tree, 'build_interface_document', 'Wsdl11')
+    body = [st for st in fn.body if not (isinstance(st, ast.Expr) and isinstance(st.value, ast.Constant))]
+    seen = []
+    for st in body:
+        t = _table_reset(st)
+        if t is None:
+            break
+        seen.append(t)
+    # every other assignment to one of the tables must be the initialisation in __init__
+    for cls in [n for n in ast.walk(tree) if isinstance(n, ast.ClassDef) and n.name == 'Wsdl11']:
+        for m in cls.body:
+            if isinstance(m, ast.FunctionDef) and m.name not in ('__init__', 'build_interface_document'):
+                for n in ast.walk(m):
+                    if isinstance(n, (ast.Assign, ast.AugAssign)):
+                        for tg in (n.targets if isinstance(n, ast.Assign) else [n.target]):
+                            ch = _attr_chain(tg)
+                            if ch is not None and len(ch) == 2 and ch[0] == 'self' and ch[1] in NODE_TABLES:
+                                raise TranslateError('%s assigns self.%s' % (m.name, ch[1]))
+    n_assign = sum(1 for n in ast.walk(fn) if _table_reset(n) is not None)
+    if n_assign != len(seen):
+        raise TranslateError('build_interface_document assigns a node table after its first statements')
+    return sorted(seen) == sorted(NODE_TABLES)
+
+
 def rebuilds_schema(repo):
     """True iff Wsdl11.build_interface_document starts, unconditionally, with self.build_schema_nodes() (no
     argument: no schemaLocation) and XmlSchema.build_schema_nodes starts by emptying self.schema_dict: the
@@ -184,6 +226,9 @@ def rebuilds_schema(repo):
     tree = _parse(repo, 'spyne/interface/wsdl/wsdl11.py')
     fn = _func(tree, 'build_interface_document', 'Wsdl11')
     body = [st for st in fn.body if not (isinstance(st, ast.Expr) and isinstance(st.value, ast.Constant))]
+    # the statements in front of it may only be the resets of the node tables (see resets_tables)
+    while body and _table_reset(body[0]) is not None:
+        body = body[1:]
     ok1 = False
     if body and isinstance(body[0], ast.Expr):
         ch, args = _call_chain(body[0].value)
@@ -315,7 +360,7 @@ def topo_key(repo):
 
 # ------------------------------------------------------------------ output
 REPAIRED = {'in_suffix': 'InHeaderMsg', 'out_suffix': 'OutHeaderMsg', 'in': True, 'out': True, 'inh': True,
-            'outh': True, 'stem': 's', 'imports_sorted': True, 'rebuilds': True, 'topo_key': ['KRepr', 'KNamespace', 'KTypeName', 'KSubName']}
+            'outh': True, 'stem': 's', 'imports_sorted': True, 'rebuilds': True, 'resets': True, 'topo_key': ['KRepr', 'KNamespace', 'KTypeName', 'KSubName']}
 
 
 def generate(repo):
@@ -325,6 +370,7 @@ def generate(repo):
                  lambda: vals.update(stem=pref_stem(repo)),
                  lambda: vals.update(imports_sorted=imports_sorted(repo)),
                  lambda: vals.update(rebuilds=rebuilds_schema(repo)),
+                 lambda: vals.update(resets=resets_tables(repo)),
                  lambda: vals.update(topo_key=topo_key(repo))):
         try:
             part()
@@ -360,7 +406,11 @@ Definition gen_topo_key : list kcomp := [%s].
 (* Wsdl11.build_interface_document starts, unconditionally, with self.build_schema_nodes(), which starts by
    emptying self.schema_dict: the document does not depend on what was built on the object before *)
 Definition gen_rebuilds_schema : bool := %s.
+
+(* ... and, before that, with emptying port_type_dict, binding_dict and service_elt_dict (the portType / binding /
+   service nodes of the document being built): a second build on one Wsdl11 instance starts where a first one does *)
+Definition gen_resets_tables : bool := %s.
 ''' % (mism, b(not problems), gtext(vals['in_suffix']), vals['in_suffix'], gtext(vals['out_suffix']), vals['out_suffix'],
        b(vals['in']), b(vals['out']), b(vals['inh']), b(vals['outh']), gtext(vals['stem']), vals['stem'],
-       b(vals['imports_sorted']), '; '.join(vals['topo_key']), b(vals['rebuilds']))
+       b(vals['imports_sorted']), '; '.join(vals['topo_key']), b(vals['rebuilds']), b(vals['resets']))
     return {'WsdlGen.v': text}
